@@ -14,7 +14,30 @@ def top_items(body):
     return [b]
 
 
-def region_of(st):
+def params_chain(e, defs, depth=0):
+    """method names between expression e and `<x>.params` (following local definitions), or None if e does not derive from it"""
+    e = C.strip(e)
+    if not isinstance(e, dict) or depth > 8:
+        return None
+    if e.get("k") == "field" and e.get("n") == "params":
+        return []
+    if e.get("k") == "mcall":
+        r = params_chain(e["recv"], defs, depth + 1)
+        return None if r is None else r + [e.get("m")]
+    if e.get("k") == "local" and defs is not None:
+        d = defs.get(e.get("id"))
+        chain = params_chain(d[1], defs, depth + 1) if d and d[0] == "expr" else None
+        if chain is not None:
+            # in-place reorderings applied to the local after its definition
+            chain = chain + list(defs.get(("inplace", e.get("id")), []))
+        return chain
+    if e.get("k") in ("addr", "deref", "paren"):
+        ch = list(C.children(e))
+        return params_chain(ch[0], defs, depth + 1) if ch else None
+    return None
+
+
+def region_of(st, defs=None):
     s = C.strip(st)
     if not isinstance(s, dict):
         return None
@@ -25,6 +48,8 @@ def region_of(st):
     if s.get("k") == "match" and any(x.get("k") == "field" and x.get("n") == "param_self" for x in C.walk(s["s"])):
         return "SELF"
     if s.get("k") == "for" and any(x.get("k") == "field" and x.get("n") == "params" for x in C.walk(s["iter"])):
+        return "PARAMS"
+    if s.get("k") == "for" and defs is not None and params_chain(s["iter"], defs) is not None:
         return "PARAMS"
     if s.get("k") == "mcall" and s.get("m") in ("for_each",) and any(x.get("k") == "field" and x.get("n") == "params" for x in C.walk(s["recv"])):
         return "PARAMS"
@@ -50,10 +75,24 @@ def is_write_push(p):
 
 
 def method_param_order(ck, rule, fn, label, min_lists=1):
+    import flow
     items = top_items(C.fn_body(fn))
+    defs = dict(flow.defs_of(fn))
+    for x in C.walk(C.fn_body(fn)):
+        if x.get("k") == "mcall" and x.get("m") in REORDER | {"retain", "dedup_by_key"} and C.strip(x["recv"]).get("k") == "local":
+            defs.setdefault(("inplace", C.strip(x["recv"]).get("id")), []).append(x.get("m"))
+    for st in items:
+        s_ = C.strip(st)
+        if isinstance(s_, dict) and s_.get("k") == "for":
+            ch = params_chain(s_["iter"], defs)
+            if ch:
+                badm = [m for m in ch if m in REORDER or m in ("filter", "filter_map", "skip", "take", "step_by", "skip_while", "take_while")]
+                ck.expect(not badm, rule, "%s/params-source" % label, "loop over %s" % ch,
+                          "the loop that fills the native declaration and the call arguments iterates the method's parameters through %s: the native parameter order no longer "
+                          "matches the order the Rust function was compiled with" % badm, C.loc(fn, s_.get("ln")))
     lists = {}
     for i, st in enumerate(items):
-        reg = region_of(st)
+        reg = region_of(st, defs)
         for name, p in pushes(st):
             r = reg
             if is_write_push(p) and reg != "PARAMS":
